@@ -21,6 +21,22 @@ pub fn games() -> Vec<(String, Tree)> {
     let mut big = zoo::dominated();
     big.map_pay(&mut |p| Num::I(p.f() as i64 * 1_000_000));
     v.push(("dominated1e6".to_string(), big));
+    // an infoset behind an own dominated action: reached in the first (uniform) iteration only, so
+    // its accumulators are touched once and then only discounted (games 11 and 12)
+    let t = |p: i64| Tree::T { pay: Num::I(p) };
+    let node = |pl: u8, info: &str, kids: Vec<(&str, Tree)>| Tree::P {
+        pl,
+        info: info.to_string(),
+        kids: kids.into_iter().map(|(a, t)| tree::PKid { a: a.to_string(), t }).collect(),
+    };
+    v.push(("forgotten".to_string(), node(1, "top", vec![("good", t(1)), ("bad", node(1, "deep", vec![("a", t(-1)), ("b", t(-2))]))])));
+    v.push((
+        "forgotten2".to_string(),
+        node(2, "top", vec![
+            ("good", node(1, "x", vec![("l", t(-1)), ("r", t(-2))])),
+            ("bad", node(2, "deep", vec![("a", t(3)), ("b", t(4)), ("c", node(1, "y", vec![("l", t(5)), ("r", t(6))]))])),
+        ]),
+    ));
     v
 }
 
